@@ -2,6 +2,7 @@ import E3fpVerif.DriverDb
 import E3fpVerif.Model.Metrics
 import E3fpVerif.Model.MetricsDispatch
 import E3fpVerif.Model.Csr
+import E3fpVerif.Model.MetricsCounts
 namespace E3fpVerif
 open Lean
 
@@ -80,6 +81,17 @@ def metricsOp (op : String) (j : Json) : Except String Json := do
     | "soergel" => return okJ (qJ (soergelDef x y))
     | "cosine" => return okJ (pairJ (cosineDef x y))
     | "pearson" => return okJ (pairJ (pearsonDef b x y))
+    | _ => .error "bad measure"
+  | "met.counts" =>
+    -- two 0/1 rows known only by |A|, |B|, |A ∩ B| and the row length (Props/C06Counts: the definitions' values)
+    let k : Counts := ⟨← jNat (← jField j "a"), ← jNat (← jField j "b"), ← jNat (← jField j "c")⟩
+    let b ← jNat (← jField j "bits")
+    match m with
+    | "tanimoto" => return okJ (qJ (tanimotoC k))
+    | "dice" => return okJ (qJ (diceC k))
+    | "soergel" => return okJ (qJ (tanimotoC k))
+    | "cosine" => return okJ (pairJ (cosineC k))
+    | "pearson" => return okJ (pairJ (pearsonC b k))
     | _ => .error "bad measure"
   | _ => .error s!"unknown op {op}"
 
